@@ -7,12 +7,24 @@ _TXTYPES = ["Send", "Activation", "Invite", "Kill", "SubmitFlip", "AnswersHash",
             "KillInvitee", "ChangeGod", "Burn", "ChangeProfile", "DeleteFlip", "Deploy", "Call", "Terminate", "Delegate", "Undelegate",
             "KillDelegator", "StoreToIpfs", "ReplenishStake"]
 
-_floors = {"inputs": (60000, 2000000), "tx_cases": (8000, 200000), "worlds_built": 4}
+_CAP = 16 * 1024 * 1024  # KiB
+
+_floors = {
+    "inputs": (100000, 3000000), "tx_cases": (30000, 1000000), "worlds_built": 10, "world_epoch_ge1": 3,
+    # non-vacuity: well-formed objects ARE accepted by the node the harness built
+    "accepted:Vote": (100, 2000), "accepted:NewTx": (100, 2000), "accepted:ProposeBlock": (15, 300), "accepted:Block": (50, 1000),
+    "accepted:FlipKey": (2, 40), "accepted:FlipKeysPackage": (2, 40), "accepted:FlipBody": (3, 60), "accepted:Handshake": (50, 1000),
+    "accepted:SnapshotManifest": (300, 6000), "answered:GetBlockByHash": (50, 1000), "answered:GetBlocksRange": (200, 4000),
+    "answered:GetForkBlockRange": (200, 4000), "answered:Pull": (15, 300),
+    "fork_found_applicable": (20, 400), "sync_applied_blocks": (100, 2000), "next_block_confirmed": (1, 20),
+    "subchain_accepted_valid": (50, 1000), "twin_blocks_inserted": (20, 400), "pool_admitted": (200, 4000),
+    "forged_length_frames": 20, "range_overflow_cases": 1, "race_detector_runs": 4, "concurrent_frames": (10000, 200000),
+}
 for _c in _CODES:
-    _floors["reached:" + _c] = (40, 1000)
+    _floors["reached:" + _c] = (300, 8000)
 for _t in _TXTYPES:
-    _floors["validator_reached:" + _t] = (20, 400)
-    _floors["inblock_validator_reached:" + _t] = (5, 100)
+    _floors["validator_reached:" + _t] = (500, 15000)
+    _floors["inblock_validator_reached:" + _t] = (150, 4000)
 
 SPEC = {
     "engine": "E3", "level": "exploration",
@@ -33,12 +45,14 @@ SPEC = {
             "of the object) that passed decoding and reached a handler or validator branch, keyed with the branch id "
             "(message code or tx type + outcome class + follow-up outcome)",
     "jobs": [
-        Job("frames", "protocol", "^TestVerifC12Frames$", shards=(6, 12), timeout=(900, 5400), extra_tags="c12"),
+        # every plain child runs under a 16 GiB address-space cap: a runaway allocation ends that child
+        # ("fatal error: out of memory", classified by the driver) instead of the machine
+        Job("frames", "protocol", "^TestVerifC12Frames$", shards=(6, 12), timeout=(900, 5400), extra_tags="c12", ulimit_v=_CAP),
         Job("frames-race", "protocol", "^TestVerifC12Frames$", race=True, shards=(4, 8), timeout=(900, 5400), extra_tags="c12",
-            env={"VERIF_C12_SCALE": "0.12"}),
-        Job("objects", "protocol", "^TestVerifC12Objects$", shards=(5, 10), timeout=(900, 5400), extra_tags="c12"),
-        Job("forged", "protocol", "^TestVerifC12Forged$", shards=(1, 1), timeout=(600, 900), extra_tags="c12",
-            ulimit_v=32 * 1024 * 1024),
+            env={"VERIF_C12_SCALE": "0.12", "GOMEMLIMIT": "6GiB"}),
+        Job("objects", "protocol", "^TestVerifC12Objects$", shards=(6, 12), timeout=(900, 5400), extra_tags="c12", ulimit_v=_CAP),
+        Job("concurrent", "protocol", "^TestVerifC12Concurrent$", shards=(1, 2), timeout=(900, 5400), extra_tags="c12", ulimit_v=_CAP),
+        Job("forged", "protocol", "^TestVerifC12Forged$", shards=(1, 1), timeout=(600, 900), extra_tags="c12", ulimit_v=_CAP),
     ],
     "parallel": 16,
     "floors": _floors,
@@ -47,5 +61,10 @@ SPEC = {
         "block-range answers carrying more blocks than the open request can take are executed only by the 'forged' job",
         "consensus config V12; epoch results come from the synthetic epoch function",
         "libp2p is absent: host, connection and stream are fakes; the ipfs proxy is the in-memory stub",
+        "frame-level cases are fed one at a time and the node's own intake goroutines are allowed to drain between cases "
+        "(exact quiescence by goroutine state); only the 'concurrent' job serves several peers at once, without -race "
+        "(data races between the node's own goroutines are C14's subject)",
+        "the handler stage of a compressed frame is metered against the decompressed size it is handed; the expansion itself is "
+        "metered on protocol.Decode against the bytes on the wire",
     ],
 }
